@@ -115,24 +115,25 @@ static size_t find_earliest_deadline(reproc_event_source *sources,
   ASSERT(num_sources > 0);
 
   size_t earliest = 0;
-  int min = REPROC_INFINITE;
+  int64_t min = REPROC_INFINITE;
 
   for (size_t i = 0; i < num_sources; i++) {
     reproc_t *process = sources[i].process;
 
-    if (process == NULL) {
+    // Sources without a process or without a deadline never expire.
+    if (process == NULL || process->deadline == REPROC_INFINITE) {
       continue;
     }
 
-    int current = expiry(REPROC_INFINITE, process->deadline);
-
-    if (current == REPROC_DEADLINE) {
+    if (expiry(REPROC_INFINITE, process->deadline) == REPROC_DEADLINE) {
       return i;
     }
 
-    if (min == REPROC_INFINITE || current < min) {
+    // Compare the deadlines themselves. The time remaining until each of them
+    // is measured at a different moment and cannot be compared.
+    if (min == REPROC_INFINITE || process->deadline < min) {
       earliest = i;
-      min = current;
+      min = process->deadline;
     }
   }
 
